@@ -504,6 +504,14 @@ package bt
 //@   bytes token
 //@   ensures[C01.txs_read_count] (=> (= err nil) (= (blen (old (rem r))) (+ r0 (blen (rem r)))))
 //@   loop 0 invariant (= (blen (old (rem r))) (+ bytesRead (blen (rem r))))
+// every element of the list is its own transaction, allocated by this call (a list whose entries share one Tx value
+// holds the last transaction n times)
+//@ func bt.(*Txs).ReadFrom
+//@   opt index-fn 1
+//@   ensures[C01.txs_read_distinct] (=> (= err nil) (forall ((k Int) (j Int)) (=> (and (<= 0 k) (< k j) (< j (len (deref tt)))) (< (rootid (at (deref tt) k)) (rootid (at (deref tt) j))))))
+//@   ensures[C01.txs_read_fresh] (=> (= err nil) (forall ((k Int)) (=> (and (<= 0 k) (< k (len (deref tt)))) (and (not (nil? (at (deref tt) k))) (fresh (at (deref tt) k))))))
+//@   loop 0 invariant (forall ((k Int)) (=> (and (<= 0 k) (< k (len (deref tt)))) (and (not (nil? (at (deref tt) k))) (fresh (at (deref tt) k)) (<= (rootid (at (deref tt) k)) (anow)))))
+//@   loop 0 invariant (forall ((k Int) (j Int)) (=> (and (<= 0 k) (< k j) (< j (len (deref tt)))) (< (rootid (at (deref tt) k)) (rootid (at (deref tt) j)))))
 
 // ---- FORKID signature hash (C02) ----
 // a transaction has fewer than 2^31 inputs and outputs (each takes at least 9 bytes of memory and of wire format): the
